@@ -15,7 +15,9 @@ CONSTANTS Routing0,    \* routing mode of this configuration
           MaxFaults,   \* jobs that may end badly
           Resizes,     \* sequence of requested pool sizes
           MayDrain,    \* DrainRequests may be sent once
-          MaxT, TStep  \* clock: now advances in steps of TStep up to MaxT
+          MaxT, TStep, \* clock: now advances in steps of TStep up to MaxT
+          FreeOrder    \* TRUE: a message handler may run although a death is already queued (the multi-threaded runtime: the
+                       \* worker died after the factory had picked the message); FALSE: strict port priority (engine T)
 
 \* values a cfg file cannot spell
 NoLim == -1
@@ -70,7 +72,7 @@ MCNext ==
   \/ \E i \in Incs : EnvKill(i)
   \/ (f.stopreq /\ FactoryStopBegin /\ Same) \/ (FactoryStopEnd /\ Same)
   \/ (~f.stopreq /\ Same /\ \E o \in Ords(f) : FactoryHandleSup(o))
-  \/ (~f.stopreq /\ fsq = <<>> /\ Same /\ \E o \in Ords(f) : FactoryHandle(o))
+  \/ (~f.stopreq /\ (FreeOrder \/ fsq = <<>>) /\ Same /\ \E o \in Ords(f) : FactoryHandle(o))
   \/ \E i \in Incs : (~act[i].kill /\ ~act[i].stop /\ WorkerStart(i) /\ Same)
   \/ \E i \in Incs : ("ok" \in Ends /\ ~act[i].kill /\ WorkerEnd(i, "ok") /\ Same)
   \/ \E i \in Incs : \E how \in Ends \ {"ok"} :
